@@ -205,6 +205,23 @@ func (e *Env) SetLabel(a *memstore.Actor, repo, name, bundleID string) error {
 	return l.UploadDescriptor(context.Background(), b)
 }
 
+// NewLabel makes a Label object for a name, as a caller of the library would.
+func NewLabel(name string) *core.Label {
+	return core.NewLabel(core.LabelDescriptor(model.NewLabelDescriptor(model.LabelName(name),
+		model.LabelContributor(model.Contributor{Name: "v", Email: "v@example.com"}))))
+}
+
+// SetLabelObject points an existing Label object (possibly used before) at a bundle.
+func (e *Env) SetLabelObject(a *memstore.Actor, repo, bundleID string, l *core.Label) error {
+	return l.UploadDescriptor(context.Background(), e.ReadBundle(a, repo, bundleID, nil, 0))
+}
+
+// GetLabelObject resolves a label into the given object.
+func (e *Env) GetLabelObject(a *memstore.Actor, repo string, l *core.Label) error {
+	b := core.NewBundle(core.Repo(repo), core.ContextStores(e.Stores(a)), core.Logger(Nop))
+	return l.DownloadDescriptor(context.Background(), b, true)
+}
+
 // GetLabel resolves a label.
 func (e *Env) GetLabel(a *memstore.Actor, repo, name string) (string, error) {
 	b := core.NewBundle(core.Repo(repo), core.ContextStores(e.Stores(a)), core.Logger(Nop))
